@@ -365,7 +365,7 @@ pub fn run_c08_one(tier: &str, rng: &mut Rng, model: &Model, rep: &mut Report, c
     // records longer than 2^22 bases whose length leaves 1..k-1 (and k+something) bases after the last multiple of 2^22:
     // block-wise scanning of a long record must neither drop nor double the windows at block boundaries
     let mut cases = Vec::new();
-    for extra in [3usize, 11, 20] {
+    for extra in [3usize, 20, 11] {
         let k = 15u64;
         let n = (1usize << 22) + extra;
         let unit = gen::clean_seq(rng, 4099, gen::Flavor::Uniform);
@@ -380,10 +380,12 @@ pub fn run_c08_one(tier: &str, rng: &mut Rng, model: &Model, rep: &mut Report, c
             tbl.push((f.min(r), 7u32));
         }
         let tbl_s = tbl.iter().map(|(a, b)| format!("{}:{}", a, b)).collect::<Vec<_>>().join(",");
-        let mut c = Case::new("cov", &[k, 5, 5, rng.below(2)], &s, "beyond-2^22-bases");
+        // raw counts in the quick tier: a handful of windows among four million moves a frequency by less than the 6-decimal
+        // tolerance of the normalised comparison
+        let mut c = Case::new("cov", &[k, 5, 5, if extra == 11 { 1 } else { 0 }], &s, "beyond-2^22-bases");
         c.extra = format!("20 {}", if tbl_s.is_empty() { "-".to_string() } else { tbl_s });
         cases.push(c);
-        if tier != "thorough" && extra == 11 {
+        if tier != "thorough" && extra == 20 {
             break;
         }
     }
